@@ -408,7 +408,11 @@ fn compare(format: Format, i: usize, rec: &Rec, got: &GotRec) -> Option<(String,
                 return mism("references", rec.transfac_refs().to_string(), format!("{:?}", got.refs));
             }
             // to_counts(): integer-valued cells give the same table as u32, others give None
-            let all_int = rec.cells.iter().all(|c| !c.is_empty() && c.bytes().all(|b| b.is_ascii_digit()));
+            // (cells above 2^24 are rounded by the f32 record, so the written integer is not what to_counts
+            // can return: for those records only the f32 matrix above is compared)
+            let all_int = rec.cells.iter().all(|c| {
+                !c.is_empty() && c.bytes().all(|b| b.is_ascii_digit()) && c.parse::<u64>().map_or(false, |v| v <= 1 << 24)
+            });
             let want_counts = if all_int { Some(expected_u32(format, rec)) } else { None };
             let have = got.counts.clone().unwrap_or(None);
             let frac_present = rec.cells.iter().any(|c| {
